@@ -23,6 +23,10 @@ TP == <<
   WhenP(2, B_("in", Pv, <<"set", <<G_(Rv, "owner"), <<"lit", TU2>>>>>>)),
   WhenP(2, B_("in", G_(Rv, "owner"), <<"set", <<Pv>>>>)),
   WhenP(2, B_("in", Pv, <<"set", <<<<"lit", TG>>, <<"lit", TG2>>>>>>)),
+  \* string-typed data: computed tag keys, like, equality of strings reached through entity references
+  WhenP(3, Conn(1, Guard(11), TT_, Use(11))), WhenP(3, Conn(1, Guard(12), TT_, Use(12))),
+  WhenP(2, <<"like", G_(G_(Rv, "owner"), "s"), <<107, Star>>>>), WhenP(2, B_("eq", G_(Pv, "s"), G_(G_(Rv, "owner"), "s"))),
+  WhenP(2, And_(H_(Pv, "mgr"), B_("hasTag", Pv, G_(G_(Pv, "mgr"), "s")))),
   WhenP(2, And_(Probes[16][1], Conn(1, Guard(2), TT_, Use(2)))), WhenP(2, Or_(B_("eq", G_(Rv, "owner"), Pv), Conn(1, Guard(4), TT_, Use(4))))
 >>
 NTP == Len(TP)
